@@ -49,12 +49,19 @@ def make_variants(rng, spec, n, feat=None, allow_file_variants=True, prefer_file
         if prefer_file_variants and rng.random() < 0.7:
             r = 0.9
         root = copy.deepcopy(rng.choice(roots))
-        if r < 0.12 and root.get('context') and not any(x['kind'] == 'file' for x in root['context']):
+        if r < 0.2 and root.get('context') and not any(x['kind'] == 'file' for x in root['context']):
             # the caller's base context object used alone here and inside a list [BASE, EXTRA] elsewhere (same python objects within a process)
             extra = copy.deepcopy(root)
             extra.pop('context', None)
             S.add_context(rng, spec, extra, {**S.DEFAULT_FEAT, **(feat or {})})
             if extra.get('context'):
+                # often EXTRA overrides an entry of a namespace that BASE overrides too (the later source wins; BASE itself must stay as it was)
+                base_ns = [(s_, ns_, k_) for s_ in root['context'] if s_['kind'] != 'file'
+                           for ns_, d_ in s_['data'].get('for_namespaces', {}).items() for k_ in d_]
+                tgt = [s_ for s_ in extra['context'] if s_['kind'] != 'file']
+                if base_ns and tgt and rng.random() < 0.7:
+                    s_, ns_, k_ = rng.choice(base_ns)
+                    tgt[0]['data'].setdefault('for_namespaces', {}).setdefault(ns_, {})[k_] = S.same_type_value(rng, s_['data']['for_namespaces'][ns_][k_])
                 root['context'] = list(root['context']) + list(extra['context'])
                 root['context_single'] = False
             for rr in roots + [root]:
